@@ -461,24 +461,27 @@ def who_runs_where(ctx, fx):
 def run(ctx):
     thorough = ctx.tier == "thorough"
     allf = RawTla("[g \\in Functionals |-> TRUE]")
-    t, cf = tlcmod.gen_mc(ctx.work, "Dispatch", "MC_Dispatch", dict(LowerFirst=allf, AnyCallable=True, DefaultTakesOptions=allf, NoneByIdentity=True),
+    t, cf = tlcmod.gen_mc(ctx.work, "Dispatch", "MC_Dispatch", dict(LowerFirst=allf, AnyCallable=True, DefaultTakesOptions=allf, NoneByIdentity=True, OwnTable=True),
                           invariants=["CaseInsensitive", "UnknownRejected", "CallableAccepted", "DefaultIsBuiltIn", "OptionsDelivered"])
     dot = os.path.join(ctx.work, "disp.dot")
     ctx.model_check(t, cf, workers=4, dump_dot=dot, label="dispatch table", timeout=300)
     nodes, inits, edges = tlcmod.parse_dot(dot)
     os.remove(dot)
-    t2, cf2 = tlcmod.gen_mc(ctx.work, "Dispatch", "MC_Dispatch_dev", dict(LowerFirst=RawTla('[g \\in Functionals |-> g \\notin {"solve", "minimize"}]'), AnyCallable=True, DefaultTakesOptions=allf, NoneByIdentity=True),
+    t2, cf2 = tlcmod.gen_mc(ctx.work, "Dispatch", "MC_Dispatch_dev", dict(LowerFirst=RawTla('[g \\in Functionals |-> g \\notin {"solve", "minimize"}]'), AnyCallable=True, DefaultTakesOptions=allf, NoneByIdentity=True, OwnTable=True),
                             invariants=["CaseInsensitive", "UnknownRejected", "CallableAccepted", "DefaultIsBuiltIn", "OptionsDelivered"])
     ctx.expect_violation(t2, cf2, inv="CaseInsensitive", label="deviation LowerFirst", workers=4, timeout=300)
-    t3, cf3 = tlcmod.gen_mc(ctx.work, "Dispatch", "MC_Dispatch_dev_callable", dict(LowerFirst=allf, AnyCallable=False, DefaultTakesOptions=allf, NoneByIdentity=True),
+    t3, cf3 = tlcmod.gen_mc(ctx.work, "Dispatch", "MC_Dispatch_dev_callable", dict(LowerFirst=allf, AnyCallable=False, DefaultTakesOptions=allf, NoneByIdentity=True, OwnTable=True),
                             invariants=["CaseInsensitive", "UnknownRejected", "CallableAccepted", "DefaultIsBuiltIn", "OptionsDelivered"])
     ctx.expect_violation(t3, cf3, inv="CallableAccepted", label="deviation AnyCallable", workers=4, timeout=300)
-    t4, cf4 = tlcmod.gen_mc(ctx.work, "Dispatch", "MC_Dispatch_dev_defopts", dict(LowerFirst=allf, AnyCallable=True, DefaultTakesOptions=RawTla('[g \\in Functionals |-> g # "squad"]'), NoneByIdentity=True),
+    t4, cf4 = tlcmod.gen_mc(ctx.work, "Dispatch", "MC_Dispatch_dev_defopts", dict(LowerFirst=allf, AnyCallable=True, DefaultTakesOptions=RawTla('[g \\in Functionals |-> g # "squad"]'), NoneByIdentity=True, OwnTable=True),
                             invariants=["CaseInsensitive", "UnknownRejected", "CallableAccepted", "DefaultIsBuiltIn", "OptionsDelivered"])
     ctx.expect_violation(t4, cf4, inv="OptionsDelivered", label="deviation DefaultTakesOptions", workers=4, timeout=300)
-    t5, cf5 = tlcmod.gen_mc(ctx.work, "Dispatch", "MC_Dispatch_dev_none", dict(LowerFirst=allf, AnyCallable=True, DefaultTakesOptions=allf, NoneByIdentity=False),
+    t5, cf5 = tlcmod.gen_mc(ctx.work, "Dispatch", "MC_Dispatch_dev_none", dict(LowerFirst=allf, AnyCallable=True, DefaultTakesOptions=allf, NoneByIdentity=False, OwnTable=True),
                             invariants=["CaseInsensitive", "UnknownRejected", "CallableAccepted", "DefaultIsBuiltIn", "OptionsDelivered"])
     ctx.expect_violation(t5, cf5, inv="UnknownRejected", label="deviation NoneByIdentity", workers=4, timeout=300)
+    t6, cf6 = tlcmod.gen_mc(ctx.work, "Dispatch", "MC_Dispatch_dev_table", dict(LowerFirst=allf, AnyCallable=True, DefaultTakesOptions=allf, NoneByIdentity=True, OwnTable=False),
+                            invariants=["CaseInsensitive", "UnknownRejected", "CallableAccepted", "DefaultIsBuiltIn", "OptionsDelivered"])
+    ctx.expect_violation(t6, cf6, inv="UnknownRejected", label="deviation OwnTable", workers=4, timeout=300)
     fx = fixtures(ctx.seed)
     nrows = 0
     with warnings.catch_warnings():
@@ -498,6 +501,9 @@ def run(ctx):
                 marg, opts = "no_such_method", {}
             elif cls == "emptyname":
                 marg, opts = "", {}
+            elif cls == "foreign":
+                # a name another functional knows; given in mixed case for every second row (the rejection must not depend on the case)
+                marg, opts = (nm if nrows % 2 else mixed(nm)), {}
             elif cls == "noncallable":
                 marg, opts = 3.5, {}
             else:
